@@ -783,6 +783,15 @@ func (w *World) checkSafeWarranted(n string, t *txTrack, i int, delay int64) {
 		if !w.conflicts(n, b) {
 			continue
 		}
+		if mb := w.minedIn(b); mb != nil && w.onNodeChain(mb) {
+			// the conflicting tx is confirmed in a block the node processed before it said "safe"
+			for _, e := range w.H[0].events {
+				if e.Kind == "headers" && e.Hash == mb.hash && e.At+w.slack < at {
+					w.fail("C07", "safe-needs-no-conflict", "safe although a conflicting tx is confirmed", fmt.Sprintf("tx %s reported safe at %d ms although block %s with conflicting tx %s was processed at %d ms", n, at/1e6, mb.name, b, e.At/1e6))
+					break
+				}
+			}
+		}
 		if w.evictedBefore(b, at) {
 			continue // a confirmed double spend removed it from tracking: it is not a known conflict any more
 		}
